@@ -116,6 +116,9 @@ class C05(PropBase):
                 ext = not ext
             elif r < 0.12 and len(data) > 0 and ref.rx_prefix_len(ref.half(a, 'rx')):
                 data = bytes([data[0] ^ 0x10]) + data[1:]
+            elif r < 0.2:
+                # a near miss: the accepted identifier with one bit flipped (another priority, another node, the functional twin, ...)
+                fid ^= 1 << rng.randrange(29 if ext else 11)
             dt = 0
             if rng.random() < 0.1:
                 dt = rng.choice([1000, tcf - 1000, tcf + 1000])
